@@ -10,6 +10,26 @@ COMMON_ASSUMPTIONS = [
 ]
 
 PROPS = {
+    "C11": {
+        "engines": [{"name": "fstrace"}],
+        "level": "exploration",
+        "technique": "simulated efivarfs device: recording afero.Fs + firmware model; oracle over the recorded operation trace, complete grid of predefined variables x stored masks x APIs x directories plus seeded generated definitions and legal short-read schedules",
+        "design_ref": "DESIGN.md section 3 (C11), 2.3 (simfs, fwmodel)",
+        "level_text": ("The sequence of filesystem operations the library issues is observed at the only place where one write and two writes differ -- the device boundary -- "
+                       "for every predefined variable on both APIs (grid enumerated completely) and for seeded name/GUID/mask/value/stored-mask combinations with "
+                       "seeded legal read chunkings; a twenty-line firmware model turns a wrong call sequence into a wrong end state. Exploration level: the generated "
+                       "definitions are sampled."),
+        "level_note": ("Trusted: simfs recorder, the firmware model (each write(2) = one SetVariable; append only with O_APPEND and APPEND_WRITE; <4 bytes EINVAL; empty data deletes), "
+                       "reference path/GUID formatting in refvars.go. Extra open flag bits and read-only metadata calls are accepted; efi/efi.go Get* helpers are out of scope."),
+        "rule": ("Grid: every predefined efivar definition x {obj,legacy} write APIs x values x with/without APPEND_WRITE x 4 efivars directories; reads x every stored-mask relation "
+                 "(equal, superset, each required bit removed, disjoint, zero) x present/absent/0-3 byte files x decoder failure; name-resolving legacy entry points, "
+                 "WriteSignedUpdate, nine typed accessors. Then seeded sequences of 1-4 operations over generated definitions. Every case is non-trivial; "
+                 "distinct = distinct event-log hash."),
+        "exhaustive": lambda tier: False,
+        "components": {"real": REAL, "stub": "simfs (recording afero.Fs over MemMapFs with seeded legal short reads), fwmodel (firmware contract), harness Marshallable/Unmarshallable, synctest clock for signed updates"},
+        "assumptions": COMMON_ASSUMPTIONS + ["kernel efivarfs sources are not available offline: the firmware model asserts only what the property itself relies on",
+                                             "the legacy write path's attr.IsImmutable touches the real filesystem (ENOENT in the sandbox); simfs reports the name MemMapFS so that the path stays simulated"],
+    },
     "C15": {
         "engines": [{"name": "faultseq"}],
         "level": "fault_enumeration",
@@ -59,7 +79,6 @@ NOT_APPLICABLE = {
     "C08": "accept/reject of a byte string by the decoder is pure; the decoder reads its io.Reader once, front to back, so EOF at instant k is exactly input of length k and a fault schedule degenerates to input mutation",
     "C09": "claimed in DESIGN.md (engine dbhist); check not built yet",
     "C10": "descriptor/WIN_CERTIFICATE round-trip and consumed-length accounting are pure codec properties",
-    "C11": "claimed in DESIGN.md (engine fstrace); check not built yet",
     "C12": "claimed in DESIGN.md (engine varstore); check not built yet",
     "C13": "for every byte string ... never crash is input-space robustness (fuzzing); dressing mutation in fault vocabulary would not change what is decided",
     "C14": "as C13, and its second half is a static inventory of termination call sites (program analysis)",
